@@ -11,7 +11,8 @@ package main
 //   bounds its stream request by the caller's context while it is being established and waits for the endpoint event
 //   with a case for the stream's context (which Close() cancels), whether internal/retry's Execute waits between two
 //   attempts in a select with the caller's context, whether the POST carrying the client's answer to a request of the
-//   server is built with a context derived from the stream's;
+//   server is built with a context derived from the stream's, whether a stream-reading function holds a lock across its
+//   read loop;
 //   (a') for the three servers: every function that registers a server-issued request in a pending table (directly or
 //   through a wrapper such as responseManager.RegisterRequest): is the delete deferred before any return can follow.
 // Purely syntactic and conservative: what is not recognised in exactly the shape the source uses is emitted as
@@ -1237,6 +1238,114 @@ func clAnswerBound(root *pkgSrc, fs []clFunc) []string {
 	return out
 }
 
+// clLockFree: the clients none of whose stream-reading functions holds a lock across its read loop. A stream-reading
+// function is a function of the client's transport file with a `for` loop that contains a read call (ReadString /
+// ReadBytes / ReadLine / Scan / Decode). In such a function (function literals apart): no `defer X.Unlock()` /
+// `defer X.RUnlock()`, and among the top-level statements before the loop every `X.Lock()` / `X.RLock()` statement has its
+// `X.Unlock()` / `X.RUnlock()` statement. A client without any stream-reading function is not listed (not understood).
+func clLockFree(root *pkgSrc, fs []clFunc) []string {
+	isRead := func(n ast.Node) bool {
+		found := false
+		ast.Inspect(n, func(m ast.Node) bool {
+			if c, ok := m.(*ast.CallExpr); ok {
+				switch clCalleeName(c) {
+				case "ReadString", "ReadBytes", "ReadLine", "Scan", "Decode":
+					found = true
+				}
+			}
+			return true
+		})
+		return found
+	}
+	lockCall := func(st ast.Stmt) (string, string) { // (mutex expression, Lock|RLock|Unlock|RUnlock)
+		es, ok := st.(*ast.ExprStmt)
+		if !ok {
+			return "", ""
+		}
+		c, ok := es.X.(*ast.CallExpr)
+		if !ok {
+			return "", ""
+		}
+		sel, ok := c.Fun.(*ast.SelectorExpr)
+		if !ok {
+			return "", ""
+		}
+		switch sel.Sel.Name {
+		case "Lock", "RLock", "Unlock", "RUnlock":
+			return clSquash(root, sel.X), sel.Sel.Name
+		}
+		return "", ""
+	}
+	readers := map[string]int{}
+	bad := map[string]bool{}
+	for _, f := range fs {
+		loopAt := -1
+		for i, st := range f.fd.Body.List {
+			if fs, ok := st.(*ast.ForStmt); ok && isRead(fs) {
+				loopAt = i
+				break
+			}
+			if rs, ok := st.(*ast.RangeStmt); ok && isRead(rs) {
+				loopAt = i
+				break
+			}
+		}
+		if loopAt < 0 {
+			continue
+		}
+		readers[f.client]++
+		// deferred unlocks anywhere in the function (function literals apart)
+		var walk func(n ast.Node)
+		walk = func(n ast.Node) {
+			ast.Inspect(n, func(m ast.Node) bool {
+				switch x := m.(type) {
+				case *ast.FuncLit:
+					return false
+				case *ast.DeferStmt:
+					if sel, ok := x.Call.Fun.(*ast.SelectorExpr); ok && (sel.Sel.Name == "Unlock" || sel.Sel.Name == "RUnlock") {
+						bad[f.client] = true
+					}
+					if fl, ok := x.Call.Fun.(*ast.FuncLit); ok { // defer func() { … X.Unlock() … }()
+						ast.Inspect(fl.Body, func(k ast.Node) bool {
+							if c, ok := k.(*ast.CallExpr); ok {
+								if n := clCalleeName(c); n == "Unlock" || n == "RUnlock" {
+									bad[f.client] = true
+								}
+							}
+							return true
+						})
+					}
+				}
+				return true
+			})
+		}
+		walk(f.fd.Body)
+		held := map[string]int{}
+		for _, st := range f.fd.Body.List[:loopAt] {
+			mx, op := lockCall(st)
+			switch op {
+			case "Lock", "RLock":
+				held[mx]++
+			case "Unlock", "RUnlock":
+				held[mx]--
+			}
+		}
+		for _, n := range held {
+			if n > 0 {
+				bad[f.client] = true
+			}
+		}
+	}
+	var out []string
+	for cl, n := range readers {
+		if n > 0 && !bad[cl] {
+			out = append(out, cl)
+		}
+	}
+	sort.Strings(out)
+	return out
+}
+
 func clLeanClient(c string) string { return "." + c }
 
 func clLeanHow(h string) string {
@@ -1312,12 +1421,16 @@ func clGen(root *pkgSrc) {
 	for _, c := range clAnswerBound(root, fs) {
 		bound = append(bound, clLeanClient(c))
 	}
+	var lockFree []string
+	for _, c := range clLockFree(root, fs) {
+		lockFree = append(lockFree, clLeanClient(c))
+	}
 	var unguarded []string
 	for _, c := range clCloseUnguarded(root) {
 		unguarded = append(unguarded, clLeanClient(c))
 	}
-	fmt.Fprintf(&b, "def clTables : Tables :=\n  { inserts := clInserts, bodies := clBodies, selects := clSelects, chanClosers := clChanClosers, answerBound := [%s], closeUnguarded := [%s], waitSites := clWaitSites,\n    readerCloses := %s, watcherCancels := %s, startGuarded := %s, backoffCtx := %s, startBounded := %s, startSelStream := %s }\n",
-		strings.Join(bound, ", "), strings.Join(unguarded, ", "), leanBool(clReaderCloses(root, fs)), leanBool(clWatcherCancels(root, fs)), leanBool(clStartGuarded(root, fs)), leanBool(clBackoffCtx()), leanBool(startBounded), leanBool(startSelStream))
+	fmt.Fprintf(&b, "def clTables : Tables :=\n  { inserts := clInserts, bodies := clBodies, selects := clSelects, chanClosers := clChanClosers, answerBound := [%s], lockFree := [%s], closeUnguarded := [%s], waitSites := clWaitSites,\n    readerCloses := %s, watcherCancels := %s, startGuarded := %s, backoffCtx := %s, startBounded := %s, startSelStream := %s }\n",
+		strings.Join(bound, ", "), strings.Join(lockFree, ", "), strings.Join(unguarded, ", "), leanBool(clReaderCloses(root, fs)), leanBool(clWatcherCancels(root, fs)), leanBool(clStartGuarded(root, fs)), leanBool(clBackoffCtx()), leanBool(startBounded), leanBool(startSelStream))
 	b.WriteString("end Mcp.Gen.CallFacts\n")
 	writeIfChanged("CallFacts.lean", b.String())
 }
